@@ -175,7 +175,13 @@ def js_term(T, c):
 def b64_term(T, c):
     return '(B64C %s %s %s %s)' % (T.hx(c['b']), T.hx(c['enc']), T.hx(c['in']), ('(Some %s)' % T.hx(c['dec'])) if c['dec_ok'] else 'None')
 def jw_term(T, c):
-    wrap = '(Some (%s,%s))' % (T.hx(c['dest']), T.msg(c['m'])) if c.get('m') else 'None'
+    if c.get('m'):
+        m = dict(c['m'])
+        if m['m']:       # hand the entries over in a non-sorted order: reversed, then rotated by the case's payload length
+            l = list(reversed(m['m'])); k = len(c['p'] or '') % len(l); m['m'] = l[k:] + l[:k]
+        wrap = '(Some (%s,%s))' % (T.hx(c['dest']), T.msg(m))
+    else:
+        wrap = 'None'
     frames = ';'.join('(%s,%s)' % (T.hx(f['text']), 'None' if f['members'] is None else
                                    '(Some [%s])' % ';'.join('(%s,%s)' % (T.hx(k), T.hx(v)) for k, v in f['members'])) for f in c['frames'])
     return '(JwC %s %s %s [%s] %s)' % (wrap, B(c['valid']), T.obytes(c['p']), frames, unw_res(T, c['got']))
